@@ -21,7 +21,7 @@ RULE = (
     "send ends in exactly one of: (1) the reference-formatted line is written once during the call and nothing else; (2) nothing written, no "
     "error, the destination is sleeping, and after that node's next wake (heartbeat response / pre-sleep; for 1.x after a version report "
     "upgrading to 2.2) the line has been written exactly once; (3) an AIOMySensorsError. A non-message must raise InvalidMessageError. "
-    "Enumerated part: every command x type 0..max+1 of the version's table x destination x buffering. Non-trivial = command other than set, "
+    "A 'race' kind replays small send-versus-flush configurations under every schedule (C09's scheduler): a send that returned normally must still reach the transport. Enumerated part: every command x type 0..max+1 of the version's table x destination x buffering. Non-trivial = command other than set, "
     "or a sleeping destination; distinct = distinct case JSON."
 )
 ASSUMPTIONS = [
@@ -54,6 +54,10 @@ def strategy(tier: str):
 
 
 def enumerate_cases(tier: str):
+    for version in ("2.0", "2.2"):
+        for parked in (1, 2):
+            for senders in ([[0, True]], [[0, True], [0, True]], [[1, True], [3, True]], [[0, False], [0, True]]):
+                yield {"kind": "race", "config": {"version": version, "parked": parked, "other_parked": 0, "senders": senders}}
     versions = ("1.4", "1.5", "2.0", "2.1", "2.2") if tier == "thorough" else ("1.5", "2.2")
     for version in versions:
         for dest in ("unknown", "awake", "sleeping"):
@@ -105,9 +109,25 @@ def _run_nonmsg(case: dict) -> Outcome:
     return Outcome(ok=True, nontrivial=True, classes=classes)
 
 
+def _run_race(case: dict) -> Outcome:
+    """A send that returns normally while the wake-up flush is in progress must not be dropped (all schedules, C09's machinery)."""
+    from vf.props import c09
+
+    bad, count, raced, _trunc = c09._explore(case["config"])
+    classes = ("race",)
+    if bad is not None and not bad.ok:
+        bad.sig = f"race:{bad.sig}"
+        bad.classes = classes
+        bad.extra_evals = count - 1
+        return bad
+    return Outcome(ok=True, nontrivial=raced, classes=classes, extra_evals=count - 1)
+
+
 def run_case(case: dict) -> Outcome:
     if case["kind"] == "nonmsg":
         return _run_nonmsg(case)
+    if case["kind"] == "race":
+        return _run_race(case)
     version, dest, msg, buffer = case["version"], case["dest"], case["msg"], case["buffer"]
     command = msg[2]
     line = ref_format(*msg)
